@@ -10,8 +10,11 @@ Definition ack_params (a toks : str) : list str := [a; s_ACK; toks].
 Definition ack_enabled (st : cap_state) (toks : str) : capmap :=
   fold_left (ack_step (st_tmp st)) (split_byte 32 toks) (st_enabled st).
 
-(* the server acknowledges sts: the token "sts" is one of the acknowledged tokens *)
-Definition acks_sts (toks : str) : Prop := In s_sts (split_byte 32 toks).
+(* the server acknowledges sts: the token "sts" is one of the acknowledged tokens (and the
+   same line does not also acknowledge its removal, "-sts") *)
+Definition s_minus_sts : str := 45 :: s_sts.
+Definition acks_sts (toks : str) : Prop :=
+  In s_sts (split_byte 32 toks) /\ ~ In s_minus_sts (split_byte 32 toks).
 
 (* the policy value that comes with the acknowledgement: what the final CAP LS advertised
    for sts and the client recorded when it requested it (nil when it never did) *)
